@@ -53,19 +53,29 @@ def chain_snapshots(ctx, rule, chain_field, what):
     ctx.floor(rule, 'ImportKind::Routes constructions in _process_blueprint', m, 1)
 
 
-def chain_always_pushed(ctx, rule, fns, what):
-    """each registration function appends the component it interned to the chain it was given, on every path to its return"""
-    for fn in fns:
-        b = ctx.need(rule, fn, ctx.fb.body('pavexc', BP + fn))
-        if b is None:
+def chain_always_pushed(ctx, rule, variants, what):
+    """every function of the blueprint-processing module that registers a component of one of `variants` (builds the UserComponent value)
+    and is handed a chain (`&mut Vec<UserComponentId>`) appends to that chain on every path to its return"""
+    VEC = '&mut alloc::vec::Vec<la_arena::Idx<pavexc::compiler::analyses::user_components::component::UserComponent>>'
+    n = 0
+    for b in ctx.fb.bodies('pavexc'):
+        if b.is_promoted or not b.nroot.startswith(BP) or b.nid != b.nroot:
             continue
-        pushes = [bb for bb, t in b.calls() if (callee(t) or '').endswith('Vec::push') and t['aty']
-                  and t['aty'][0].startswith('&mut alloc::vec::Vec<la_arena::Idx<pavexc::compiler::analyses::user_components::component::UserComponent>>')]
+        if not any(b.locals[i].startswith(VEC) for i in range(1, b.raw['argc'] + 1)):
+            continue
+        built = {st['rv']['var'] for bb, j, st in b.all_assigns() if st['rv']['k'] == 'agg' and st['rv'].get('ak') == 'adt'
+                 and strip_generics(st['rv']['adt']).endswith('user_components::component::UserComponent')}
+        if not (built & set(variants)):
+            continue
+        n += 1
+        fn = b.nroot.replace(BP, '')
+        pushes = [bb for bb, t in b.calls() if (callee(t) or '').endswith('Vec::push') and t['aty'] and t['aty'][0].startswith(VEC)]
         rets = set(b.return_blocks())
         escaped = sorted(b.reachable_from_entry(avoid=pushes) & rets) if pushes else sorted(rets)
         ctx.ob(rule, 'always-appended|%s' % fn, bool(pushes) and not escaped, b.loc(pushes[0]) if pushes else b.loc(),
-               '%s appends to the %s on every path to its return: %s%s' % (fn, what, bool(pushes) and not escaped,
-                                                                          '' if not escaped else ' — a return (bb%s) is reachable without the push: the registration is dropped' % escaped))
+               '%s (registers %s) appends to the %s on every path to its return: %s%s' % (fn, sorted(built & set(variants)), what, bool(pushes) and not escaped,
+                                                                           '' if not escaped else ' — a return (bb%s) is reachable without the push: the registration is dropped' % escaped))
+    ctx.floor(rule, 'functions registering %s' % '/'.join(variants), n, 1)
 
 
 def chain_only_pushed(ctx, rule, ty_marker='UserComponent'):
@@ -82,7 +92,7 @@ def chain_only_pushed(ctx, rule, ty_marker='UserComponent'):
                 if m in bad_ops:
                     ctx.ob(rule, 'chain-mutation|%s|%s' % (b.nroot.replace(BP, ''), m), False, b.loc(bb, t), 'Vec::%s on a middleware/observer chain in %s' % (m, b.nroot))
     ctx.ob(rule, 'chains-append-only', True, '', '%d mutable accesses to chain vectors, none reorders or removes' % n, nontrivial=False)
-    ctx.floor(rule, 'mutable accesses to chain vectors', n, 3)
+    ctx.floor(rule, 'mutable accesses to chain vectors', n, 1)
 
 
 def scope_lookup_shape(ctx, rule, fn, inner, crate='pavexc'):
